@@ -47,7 +47,7 @@ var textOK = map[string]bool{"div": true, "section": true, "li": true, "p": true
 var (
 	idPool    = []string{"a", "b", "main", "x1"}
 	classPool = []string{"k", "m", "r", "box"}
-	textPool  = []string{"one", "two", "x y", "t3", "Q", "lorem ipsum", "7", "end"}
+	textPool  = []string{"one", "two", "x y", "t3", "Q", "lorem ipsum", "7", "end", " padded ", "tail  ", "  lead"}
 	titlePool = []string{"t1", "t2", "hello"}
 	dataPool  = []string{"v", "w", "42"}
 	stylePool = map[string][]string{"color": {"red", "blue"}, "width": {"10px", "2em"}, "display": {"block", "none"}, "margin": {"auto"}}
